@@ -1,5 +1,5 @@
 //@ unit U-SHSCAN
-//@ props C09
+//@ props C09 C18 C05
 //@ verus-args --rlimit 100
 //@ rules-from isearch
 #![allow(non_snake_case, unused)]
@@ -87,7 +87,7 @@ impl MDBCASInfo {
 //@ loop 1
             invariant
                 reader.data@ == data0, data0 == old(reader).data@, reader.pos@ == p0 + 48 + 48 * vx_it1, chunks@.len() == vx_it1, metadata == cas_hdr_at(data0, p0),
-                forall|j: int| 0 <= j < chunks@.len() ==> #[trigger] chunks@[j] == cas_entry_at(data0, p0 + 48 + 48 * j),
+                /*@C09*/ forall|j: int| 0 <= j < chunks@.len() ==> #[trigger] chunks@[j] == cas_entry_at(data0, p0 + 48 + 48 * j),
 //@ end
 }
 
@@ -164,22 +164,30 @@ impl MDBFileInfo {
             invariant
                 reader.data@ == data0, data0 == old(reader).data@, reader.pos@ == p0 + 48 + 48 * vx_it1, segments@.len() == vx_it1,
                 metadata == file_hdr_at(data0, p0), num_entries == metadata.num_entries,
-                forall|j: int| 0 <= j < segments@.len() ==> #[trigger] segments@[j] == file_entry_at(data0, p0 + 48 + 48 * j),
+                /*@C09*/ forall|j: int| 0 <= j < segments@.len() ==> #[trigger] segments@[j] == file_entry_at(data0, p0 + 48 + 48 * j),
 //@ loop 2
                 invariant
                     reader.data@ == data0, data0 == old(reader).data@, reader.pos@ == p0 + 48 + 48 * num_entries + 48 * vx_it2, verification@.len() == vx_it2,
                     metadata == file_hdr_at(data0, p0), num_entries == metadata.num_entries,
-                    forall|j: int| 0 <= j < verification@.len() ==> #[trigger] verification@[j] == verif_at(data0, p0 + 48 + 48 * num_entries + 48 * j),
+                    /*@C09*/ forall|j: int| 0 <= j < verification@.len() ==> #[trigger] verification@[j] == verif_at(data0, p0 + 48 + 48 * num_entries + 48 * j),
 //@ end
 }
 
 // ---- read_all_truncated_hashes ------------------------------------------------------------------------------------------
 #[verifier::external_body]
 fn truncate_hash(hash: &MerkleHash) -> (r: u64) ensures r == hash.0[0] { unimplemented!() }
+// little-endian scalars at a byte offset (the same reading as `isx::spec_u64_at` / `u32_at` of the writer's token model in prelude/shwrite_io.rs)
+uninterp spec fn u64_le_at(data: Seq<u8>, p: int) -> u64;
+uninterp spec fn u32_le_at(data: Seq<u8>, p: int) -> u32;
+// utils::serialization_utils readers: on Ok the scalar at the position was read and the position advanced by its size
 #[verifier::external_body]
-fn read_u64(reader: &mut VxSR) -> (r: Result<u64>) ensures final(reader).data@ == old(reader).data@ { unimplemented!() }
+fn read_u64(reader: &mut VxSR) -> (r: Result<u64>)
+    ensures final(reader).data@ == old(reader).data@, r matches Ok(v) ==> v == u64_le_at(old(reader).data@, old(reader).pos@) && final(reader).pos@ == old(reader).pos@ + 8
+{ unimplemented!() }
 #[verifier::external_body]
-fn read_u32(reader: &mut VxSR) -> (r: Result<u32>) ensures final(reader).data@ == old(reader).data@ { unimplemented!() }
+fn read_u32(reader: &mut VxSR) -> (r: Result<u32>)
+    ensures final(reader).data@ == old(reader).data@, r matches Ok(v) ==> v == u32_le_at(old(reader).data@, old(reader).pos@) && final(reader).pos@ == old(reader).pos@ + 4
+{ unimplemented!() }
 // number of chunk entries in the first k blocks
 spec fn chunks_before(sec: Seq<CASChunkSequenceHeader>, k: int) -> int decreases k {
     if k <= 0 { 0 } else { chunks_before(sec, k - 1) + sec[k - 1].num_entries }
@@ -192,6 +200,56 @@ spec fn trunc_upto(v: Seq<(u64, (u32, u32))>, data: Seq<u8>, off: int, sec: Seq<
     forall|b: int, j: int| 0 <= b < k && 0 <= j < sec[b].num_entries ==> trunc_ok(#[trigger] v[chunks_before(sec, b) + j], data, off, sec, b, j)
 }
 spec fn tv(v: Vec<(u64, (u32, u32))>) -> Seq<(u64, (u32, u32))> { v@ }
+// ---- what the listing is, whichever tables the shard carries -------------------------------------------------------------------------
+// row `t` names a chunk of the section / chunk (b, j) of the section is listed in `v`
+spec fn row_named(t: (u64, (u32, u32)), data: Seq<u8>, off: int, sec: Seq<CASChunkSequenceHeader>) -> bool {
+    exists|b: int, j: int| 0 <= b < sec.len() && 0 <= j < sec[b].num_entries && #[trigger] trunc_ok(t, data, off, sec, b, j)
+}
+spec fn chunk_listed(v: Seq<(u64, (u32, u32))>, data: Seq<u8>, off: int, sec: Seq<CASChunkSequenceHeader>, b: int, j: int) -> bool {
+    exists|t: int| 0 <= t < v.len() && trunc_ok(#[trigger] v[t], data, off, sec, b, j)
+}
+// exactly one row per chunk of every xorb record: as many rows as chunks, every row names a real chunk, every chunk is listed
+// (the shape of U-SHWRITE's `chunk_pairs`: "the chunk table has exactly Σ|chunks| rows naming real chunks")
+spec fn rows_cover(v: Seq<(u64, (u32, u32))>, data: Seq<u8>, off: int, sec: Seq<CASChunkSequenceHeader>) -> bool {
+    &&& v.len() == chunks_before(sec, sec.len() as int)
+    &&& forall|t: int| 0 <= t < v.len() ==> row_named(#[trigger] v[t], data, off, sec)
+    &&& forall|b: int, j: int| 0 <= b < sec.len() && 0 <= j < sec[b].num_entries ==> #[trigger] chunk_listed(v, data, off, sec, b, j)
+}
+// the on-disk chunk lookup table: n rows of (u64 key, u32 block ordinal, u32 chunk index), 16 bytes each, at byte p
+spec fn table_row(data: Seq<u8>, p: int, i: int) -> (u64, (u32, u32)) {
+    (u64_le_at(data, p + 16 * i), (u32_le_at(data, p + 16 * i + 8), u32_le_at(data, p + 16 * i + 12)))
+}
+spec fn table_rows(data: Seq<u8>, p: int, n: int) -> Seq<(u64, (u32, u32))> { Seq::new(n as nat, |i: int| table_row(data, p, i)) }
+// index of chunk (b, j) in the section-ordered listing
+spec fn row_at(sec: Seq<CASChunkSequenceHeader>, b: int, j: int) -> int { chunks_before(sec, b) + j }
+// the block a row index of the section-ordered listing falls into
+proof fn lemma_row_block(sec: Seq<CASChunkSequenceHeader>, k: int, t: int)
+    requires 0 <= k <= sec.len(), 0 <= t < chunks_before(sec, k),
+    ensures exists|b: int, j: int| 0 <= b < k && 0 <= j < sec[b].num_entries && t == #[trigger] row_at(sec, b, j),
+    decreases k,
+{
+    lemma_chunks_mono(sec, 0, k - 1);
+    if t < chunks_before(sec, k - 1) { lemma_row_block(sec, k - 1, t); }
+    else { let b = k - 1; let j = t - chunks_before(sec, k - 1); assert(0 <= b < k && 0 <= j < sec[b].num_entries && t == row_at(sec, b, j)); }
+}
+// the section-ordered listing covers the section
+proof fn lemma_scan_covers(v: Seq<(u64, (u32, u32))>, data: Seq<u8>, off: int, sec: Seq<CASChunkSequenceHeader>)
+    requires v.len() == chunks_before(sec, sec.len() as int), trunc_upto(v, data, off, sec, sec.len() as int),
+    ensures rows_cover(v, data, off, sec),
+{
+    let cnt = sec.len() as int;
+    assert forall|t: int| 0 <= t < v.len() implies row_named(#[trigger] v[t], data, off, sec) by {
+        lemma_row_block(sec, cnt, t);
+        let (b, j) = choose|b: int, j: int| 0 <= b < cnt && 0 <= j < sec[b].num_entries && t == #[trigger] row_at(sec, b, j);
+        assert(trunc_ok(v[chunks_before(sec, b) + j], data, off, sec, b, j));
+    }
+    assert forall|b: int, j: int| 0 <= b < cnt && 0 <= j < sec[b].num_entries implies #[trigger] chunk_listed(v, data, off, sec, b, j) by {
+        lemma_chunks_mono(sec, b + 1, cnt); lemma_chunks_mono(sec, 0, b);
+        assert(chunks_before(sec, b + 1) == chunks_before(sec, b) + sec[b].num_entries);
+        let t = chunks_before(sec, b) + j;
+        assert(0 <= t < v.len() && trunc_ok(v[t], data, off, sec, b, j));
+    }
+}
 proof fn lemma_cas_pos_lower(off: int, sec: Seq<CASChunkSequenceHeader>, k: int)
     requires 0 <= k <= sec.len(),
     ensures cas_pos(off, sec, k) >= off + 48 * k + 48 * chunks_before(sec, k), chunks_before(sec, k) >= 0,
@@ -262,14 +320,14 @@ impl MDBShardInfo {
         proof { assert(cas_section(data0, off, sec)); }
 //@ after `loop`
             invariant_except_break
-                reader.pos@ == cas_pos(off, sec, cas_blocks@.len() as int),
+                /*@C09*/ reader.pos@ == cas_pos(off, sec, cas_blocks@.len() as int),
             invariant
                 reader.data@ == data0, cas_section(data0, off, sec), off == self.metadata.cas_info_offset,
                 cas_blocks@.len() <= sec.len(),
-                forall|k: int| 0 <= k < cas_blocks@.len() ==> (#[trigger] cas_blocks@[k]).0 == sec[k] && cas_blocks@[k].1 == cas_pos(off, sec, k),
+                /*@C09*/ forall|k: int| 0 <= k < cas_blocks@.len() ==> (#[trigger] cas_blocks@[k]).0 == sec[k] && cas_blocks@[k].1 == cas_pos(off, sec, k),
             ensures
                 cas_blocks@.len() == sec.len(),
-                forall|k: int| 0 <= k < cas_blocks@.len() ==> (#[trigger] cas_blocks@[k]).0 == sec[k] && cas_blocks@[k].1 == cas_pos(off, sec, k),
+                /*@C09*/ forall|k: int| 0 <= k < cas_blocks@.len() ==> (#[trigger] cas_blocks@[k]).0 == sec[k] && cas_blocks@[k].1 == cas_pos(off, sec, k),
             decreases sec.len() - cas_blocks@.len(),
 //@ before `let n = cas_block.num_entries;`
             proof { lemma_cas_pos_step(off, sec, cas_blocks@.len() as int); }
@@ -296,11 +354,11 @@ impl MDBShardInfo {
         proof { assert(cas_section(data0, off, sec)); }
 //@ loop 1
             invariant_except_break
-                reader.pos@ == cas_pos(off, sec, cv(ret).len() as int),
+                /*@C09*/ reader.pos@ == cas_pos(off, sec, cv(ret).len() as int),
             invariant
                 reader.data@ == data0, cas_section(data0, off, sec), off == self.metadata.cas_info_offset,
                 cv(ret).len() <= sec.len(),
-                forall|k: int| 0 <= k < cv(ret).len() ==> (#[trigger] cv(ret)[k]).metadata == sec[k] && cas_block_ok(data0, cas_pos(off, sec, k), cv(ret)[k]),
+                /*@C09*/ forall|k: int| 0 <= k < cv(ret).len() ==> (#[trigger] cv(ret)[k]).metadata == sec[k] && cas_block_ok(data0, cas_pos(off, sec, k), cv(ret)[k]),
             ensures
                 cv(ret).len() == sec.len(),
             decreases sec.len() - cv(ret).len(),
@@ -330,11 +388,11 @@ impl MDBShardInfo {
         proof { assert(file_section(data0, off, sec)); }
 //@ loop 1
             invariant_except_break
-                reader.pos@ == file_pos(off, sec, fv(ret).len() as int),
+                /*@C09*/ reader.pos@ == file_pos(off, sec, fv(ret).len() as int),
             invariant
                 reader.data@ == data0, file_section(data0, off, sec), off == self.metadata.file_info_offset,
                 fv(ret).len() <= sec.len(),
-                forall|k: int| 0 <= k < fv(ret).len() ==> (#[trigger] fv(ret)[k]).metadata == sec[k] && file_block_ok(data0, file_pos(off, sec, k), fv(ret)[k]),
+                /*@C09*/ forall|k: int| 0 <= k < fv(ret).len() ==> (#[trigger] fv(ret)[k]).metadata == sec[k] && file_block_ok(data0, file_pos(off, sec, k), fv(ret)[k]),
             ensures
                 fv(ret).len() == sec.len(),
             decreases sec.len() - fv(ret).len(),
@@ -371,10 +429,10 @@ impl MDBShardInfo {
         proof { assert(file_section(data0, off, sec)); }
 //@ after `loop`
             invariant_except_break
-                reader.pos@ == file_pos(off, sec, rv(ret).len() as int),
+                /*@C09*/ reader.pos@ == file_pos(off, sec, rv(ret).len() as int),
             invariant
                 reader.data@ == data0, file_section(data0, off, sec), rv(ret).len() <= sec.len(), off >= 48,
-                forall|k: int| 0 <= k < rv(ret).len() ==> {
+                /*@C09*/ forall|k: int| 0 <= k < rv(ret).len() ==> {
                     let t = #[trigger] rv(ret)[k]; let p = file_pos(off, sec, k); let n = sec[k].num_entries as int;
                     &&& t.0 == sec[k].file_hash
                     &&& t.1.0 == p + 48 && t.1.1 == p + 48 + 48 * n
@@ -399,25 +457,39 @@ impl MDBShardInfo {
         requires
             has_cas_section(old(reader).data@, self.metadata.cas_info_offset as int),
             // the scan branch never tests is_bookend: it needs the CAS section to end exactly at file_lookup_offset and the bookend
-            // record to carry num_entries == 0 (true for every writer of this crate: bookend() = all-ones hash + Default)
-            self.metadata.chunk_lookup_num_entry == 0 ==> ({
+            // record to carry num_entries == 0 (true for every writer of this crate, with or without lookup tables: bookend() = all-ones
+            // hash + Default; the file lookup table, possibly empty, starts right after the CAS bookend)
+            ({
                 let off = self.metadata.cas_info_offset as int; let sec = the_cas_section(old(reader).data@, off);
                 &&& self.metadata.file_lookup_offset == cas_pos(off, sec, sec.len() as int) + 48
                 &&& cas_hdr_at(old(reader).data@, cas_pos(off, sec, sec.len() as int)).num_entries == 0
                 &&& self.metadata.file_lookup_offset - off <= 48 * 0xFFFF_FFFF      // record indices fit u32
             }),
-        ensures
-            // without a chunk lookup table: one entry per chunk of every xorb record of the section, in section order
-            res matches Ok(v) ==> (self.metadata.chunk_lookup_num_entry == 0 ==> /*@C09*/ {
-                let data = old(reader).data@; let off = self.metadata.cas_info_offset as int; let sec = the_cas_section(data, off);
-                v@.len() == chunks_before(sec, sec.len() as int) && trunc_upto(v@, data, off, sec, sec.len() as int)
+            // the chunk lookup table is OPTIONAL; it is present exactly when its footer count is non-zero, and then it is what the
+            // writers put there (U-SHWRITE `chunk_table_post`, U-KEYEXPORTSEC `tables_post` + `export_cas_post`): one row per chunk of every
+            // xorb record.  (A zero count with a non-empty CAS section therefore means "no table", never "an empty table".)
+            self.metadata.chunk_lookup_num_entry != 0 ==> ({
+                let data = old(reader).data@; let off = self.metadata.cas_info_offset as int;
+                rows_cover(table_rows(data, self.metadata.chunk_lookup_offset as int, self.metadata.chunk_lookup_num_entry as int), data, off, the_cas_section(data, off))
             }),
-            // with a table: exactly chunk_lookup_num_entry entries are read from it
-            res matches Ok(v) ==> (self.metadata.chunk_lookup_num_entry != 0 ==> v@.len() == self.metadata.chunk_lookup_num_entry),
+        ensures
+            // C09/C18/C05 - the same listing with or without the optional table: exactly one (truncated stored chunk hash, (ordinal of the
+            // xorb header, chunk index)) row per chunk of every xorb record of the CAS section
+            /*@C09,C18,C05*/ res matches Ok(v) ==> ({
+                let data = old(reader).data@; let off = self.metadata.cas_info_offset as int;
+                rows_cover(v@, data, off, the_cas_section(data, off))
+            }),
+            // order: the rows come in section order (always the case when there is no table) or they are the rows of the table, in table (key) order
+            /*@C09,C18,C05*/ res matches Ok(v) ==> ({
+                let data = old(reader).data@; let off = self.metadata.cas_info_offset as int; let sec = the_cas_section(data, off);
+                ||| (v@.len() == chunks_before(sec, sec.len() as int) && trunc_upto(v@, data, off, sec, sec.len() as int))
+                ||| (self.metadata.chunk_lookup_num_entry != 0 && v@ == table_rows(data, self.metadata.chunk_lookup_offset as int, self.metadata.chunk_lookup_num_entry as int))
+            }),
 //@ body-start
         let ghost data0 = reader.data@; let ghost off = self.metadata.cas_info_offset as int; let ghost sec0 = the_cas_section(data0, off);
         // the section with its bookend appended as a block without entries
         let ghost sec = sec0.push(cas_hdr_at(data0, cas_pos(off, sec0, sec0.len() as int)));
+        let ghost mut vx_scan = false;   /* which branch ran */
         let ghost mut kk: int = 0; let ghost n0 = sec0.len() as int; let ghost bk = cas_hdr_at(data0, cas_pos(off, sec0, sec0.len() as int));
         proof {
             assert(cas_section(data0, off, sec0));
@@ -426,27 +498,40 @@ impl MDBShardInfo {
         }
 //@ before `Ok(ret)`
         proof {
-            if self.metadata.chunk_lookup_num_entry == 0 {
+            if vx_scan {
                 lemma_cas_pos_push(off, sec0, bk, n0);
                 assert(cas_pos(off, sec, n0 + 1) == cas_pos(off, sec, n0) + 48 + 48 * sec[n0].num_entries);
-                if kk <= n0 { lemma_cas_pos_mono2(off, sec, kk, n0); /*@C09*/ assert(false); } /* tagged: at exit every block has been visited */
+                if kk <= n0 { lemma_cas_pos_mono2(off, sec, kk, n0); /*@C09,C18,C05*/ assert(false); } /* tagged: at exit every block has been visited */
                 assert(kk == n0 + 1);
                 assert(chunks_before(sec, n0 + 1) == chunks_before(sec, n0) + sec[n0].num_entries);
                 assert forall|b: int, j: int| 0 <= b < n0 && 0 <= j < sec0[b].num_entries implies trunc_ok(#[trigger] tv(ret)[chunks_before(sec0, b) + j], data0, off, sec0, b, j) by {
                     lemma_cas_pos_push(off, sec0, bk, b); assert(sec[b] == sec0[b]);
                     assert(trunc_ok(tv(ret)[chunks_before(sec, b) + j], data0, off, sec, b, j));
                 }
+                assert(chunks_before(sec0, n0) == chunks_before(sec, n0)) by { lemma_cas_pos_push(off, sec0, bk, n0); }
+                lemma_scan_covers(tv(ret), data0, off, sec0);
+            } else {
+                /*@C09,C18,C05*/ assert(tv(ret) =~= table_rows(data0, self.metadata.chunk_lookup_offset as int, self.metadata.chunk_lookup_num_entry as int));   /* tagged: the table branch returns the table's rows, all of them */
             }
         }
+//@ before `reader.seek(SeekFrom::Start(self.metadata.chunk_lookup_offset))?;`
+            proof {
+                /*@C09,C18,C05*/ assert(self.metadata.chunk_lookup_num_entry != 0);   /* tagged: the table is read only when it is present - a zero count means "no table", and then the CAS section must be scanned */
+            }
+//@ before `let (cas_info_start, cas_info_end) = self.cas_info_byte_range();`
+            proof { vx_scan = true; }
 //@ loop 1
-                invariant reader.data@ == data0, tv(ret).len() == vx_it1,
+                invariant
+                    reader.data@ == data0,
+                    /*@C09,C18,C05*/ tv(ret).len() == vx_it1, reader.pos@ == self.metadata.chunk_lookup_offset + 16 * vx_it1,
+                    /*@C09,C18,C05*/ forall|i: int| 0 <= i < vx_it1 ==> #[trigger] tv(ret)[i] == table_row(data0, self.metadata.chunk_lookup_offset as int, i),
 //@ loop 2
                 invariant
-                    self.metadata.chunk_lookup_num_entry == 0, reader.data@ == data0, cas_section(data0, off, sec0), off == self.metadata.cas_info_offset,
+                    reader.data@ == data0, cas_section(data0, off, sec0), off == self.metadata.cas_info_offset,
                     sec == sec0.push(bk), bk == cas_hdr_at(data0, cas_pos(off, sec0, sec0.len() as int)), n0 == sec0.len(), bk.num_entries == 0,
                     cas_info_start == off, cas_info_end == cas_pos(off, sec0, sec0.len() as int) + 48, cas_info_end - off <= 48 * 0xFFFF_FFFF,
-                    0 <= kk <= sec.len(), reader.pos@ == cas_pos(off, sec, kk), 48 * cas_index == reader.pos@ - off,
-                    tv(ret).len() == chunks_before(sec, kk), trunc_upto(tv(ret), data0, off, sec, kk),
+                    /*@C09,C18,C05*/ 0 <= kk <= sec.len(), reader.pos@ == cas_pos(off, sec, kk), 48 * cas_index == reader.pos@ - off,
+                    /*@C09,C18,C05*/ tv(ret).len() == chunks_before(sec, kk), trunc_upto(tv(ret), data0, off, sec, kk),
                     forall|i: int| 0 <= i <= sec0.len() ==> cas_pos(off, sec, i) == cas_pos(off, sec0, i),
                 decreases sec.len() - kk,
 //@ after `let cas_header = CASChunkSequenceHeader::deserialize(reader)?;`
@@ -454,7 +539,7 @@ impl MDBShardInfo {
                     // the loop condition held: the position is before the end, so this is block kk of the extended list
                     lemma_cas_pos_mono2(off, sec, kk, sec.len() as int); lemma_cas_pos_push(off, sec0, bk, n0);
                     assert(cas_pos(off, sec, n0 + 1) == cas_pos(off, sec, n0) + 48 + 48 * sec[n0].num_entries);
-                    if kk == sec.len() { /*@C09*/ assert(false); } /* tagged: the loop condition bounds the scan by the section end */
+                    if kk == sec.len() { /*@C09,C18,C05*/ assert(false); } /* tagged: the loop condition bounds the scan by the section end */
                     if kk < n0 { lemma_cas_pos_push(off, sec0, bk, kk); assert(cas_hdr_at(data0, cas_pos(off, sec0, kk)) == sec0[kk]); assert(sec[kk] == sec0[kk]); }
                     lemma_chunks_mono(sec, kk, kk);
                 }
@@ -466,7 +551,7 @@ impl MDBShardInfo {
                         assert(tv(ret) == old_v.push(tv(ret).last()));
                         lemma_trunc_push(old_v, tv(ret).last(), data0, off, sec, kk);
                         // (tagged: the element just pushed is the table row of this chunk)
-                        /*@C09*/ assert forall|j: int| 0 <= j < chunk_index + 1 implies trunc_ok(#[trigger] tv(ret)[chunks_before(sec, kk) + j], data0, off, sec, kk, j) by {
+                        /*@C09,C18,C05*/ assert forall|j: int| 0 <= j < chunk_index + 1 implies trunc_ok(#[trigger] tv(ret)[chunks_before(sec, kk) + j], data0, off, sec, kk, j) by {
                             if j < chunk_index { assert(tv(ret)[chunks_before(sec, kk) + j] == old_v[chunks_before(sec, kk) + j]); }
                         }
                     }
@@ -484,9 +569,9 @@ impl MDBShardInfo {
                     invariant
                         reader.data@ == data0, 0 <= kk < sec.len(), cas_header == sec[kk], off == self.metadata.cas_info_offset, tv(ret).len() >= chunks_before(sec, kk),
                         sec == sec0.push(bk), n0 == sec0.len(),
-                        reader.pos@ == cas_pos(off, sec, kk) + 48 + 48 * chunk_index, 48 * cas_index == cas_pos(off, sec, kk) - off,
-                        tv(ret).len() == chunks_before(sec, kk) + chunk_index, trunc_upto(tv(ret), data0, off, sec, kk),
-                        forall|j: int| 0 <= j < chunk_index ==> trunc_ok(#[trigger] tv(ret)[chunks_before(sec, kk) + j], data0, off, sec, kk, j),
+                        /*@C09,C18,C05*/ reader.pos@ == cas_pos(off, sec, kk) + 48 + 48 * chunk_index, 48 * cas_index == cas_pos(off, sec, kk) - off,
+                        /*@C09,C18,C05*/ tv(ret).len() == chunks_before(sec, kk) + chunk_index, trunc_upto(tv(ret), data0, off, sec, kk),
+                        /*@C09,C18,C05*/ forall|j: int| 0 <= j < chunk_index ==> trunc_ok(#[trigger] tv(ret)[chunks_before(sec, kk) + j], data0, off, sec, kk, j),
 //@ end
 }
 
